@@ -22,7 +22,10 @@ type heapSubj[T comparable] struct {
 	pop      func() (T, bool)
 	m        []T // multiset of members (full identity)
 	scribble bool
+	argDamage string
 }
+
+func (s *heapSubj[T]) ArgDamage() string { d := s.argDamage; s.argDamage = ""; return d }
 
 func (s *heapSubj[T]) SetScribble(b bool) { s.scribble = b }
 
@@ -164,6 +167,11 @@ func (s *heapSubj[T]) ModelApply(op Op) {
 		s.m = nil
 	case "Fill":
 		s.m = append(slices.Clone(s.m), s.vals(heapFill(op.A))...)
+	case "Shrink":
+		for len(s.m) > op.A[0] {
+			i := s.minIndex()
+			s.m = slices.Delete(slices.Clone(s.m), i, i+1)
+		}
 	case "FromJSON":
 		if xs, ok := refDecodeSlice[T](op.B); ok {
 			s.m = xs
@@ -181,6 +189,9 @@ func (s *heapSubj[T]) Step(op Op, o *Oracle) {
 		vs := s.vals(op.A)
 		s.push(vs...)
 		if s.scribble { // C16: the caller overwrites the slice it passed
+			if dmg := argDamage(vs, s.vals(op.A), s.d.Str); dmg != "" && s.argDamage == "" {
+				s.argDamage = dmg
+			}
 			for i := range vs {
 				vs[i] = s.d.Probes[0]
 			}
@@ -208,10 +219,20 @@ func (s *heapSubj[T]) Step(op Op, o *Oracle) {
 	case "Fill":
 		s.push(s.vals(heapFill(op.A))...)
 		s.m = append(slices.Clone(s.m), s.vals(heapFill(op.A))...)
+	case "Shrink":
+		for len(s.m) > op.A[0] {
+			v, ok := s.pop()
+			i := s.indexOf(v)
+			if !ok || i < 0 {
+				break // (what Pop returns is judged by the Pop steps; here the model only follows)
+			}
+			s.m = slices.Delete(slices.Clone(s.m), i, i+1)
+		}
 	case "FromJSON":
 		// C06 names "successful FromJSON" in its statement: after a successful load the heap must
 		// hold exactly the loaded multiset and keep yielding minima.
-		err := s.IO().FromJSON(op.B)
+		// (FromJSON, UnmarshalJSON and json.Unmarshal are three entry points to the same load)
+		err := loadVariant(s, op.ID, op.B)
 		xs, ok := refDecodeSlice[T](op.B)
 		if err == nil {
 			if !ok {
